@@ -106,7 +106,9 @@ STRS = ['', ' ', 'a', ' a ', 'a  b', '\ta\nb ', 'yes', 'no', 'normal', '#FF00FF'
         '1', '1, 2', '1,2', '1 ,2', ' ', '   ', '0', '2000-01-01', '2000-13-01', '2000-01-01Z', 'abc:def', ':a', 'a:b',
         '-a', 'a-b.c_d', 'en', 'en-US', 'x-klingon', 'i-x', 'toolongsubtag1', 'e', 'wiggleTrill', 'guitarVibratoStroke',
         'coda', 'codaSquare', 'segno', 'lyricsElision', 'pictBeaterHard', 'accSagittal', 'Arial, Helvetica', 'a,b', ',a',
-        '١٢', 'café', '\U0001d11e', 'quarter', 'eighth', 'up', 'xx-large', 'medium', 'whole', '16th', 'start']
+        '١٢', 'café', '\U0001d11e', 'quarter', 'eighth', 'up', 'xx-large', 'medium', 'whole', '16th', 'start',
+        '1,\u00a02', 'a\u00a0b', '\u2003x', 'x\x0b', '1,\x0c2', 'Arial,\u00a0Helvetica', '\u00a01', '1\u3000', 'a\x1fb', '1,\u20092',
+        '1, 2 ', '1,  2', ' 1', '#FF00FF\n', 'yes ', ' no', 'a\rb', '\r\n', 'x\u0085y']
 
 
 def boundary_values(row):
@@ -136,6 +138,16 @@ def cases_for_type(cls_name, row, rnd, all_enums, n_extra=6):
             if s:
                 k = rnd.randrange(len(s))
                 vals.append(s[:k] + rnd.choice(['!', ' ', 'Z', ':', ',', '']) + s[k + 1:])
+                if ' ' in s:
+                    j = s.index(' ')
+                    vals.append(s[:j] + rnd.choice(['\u00a0', '\x0b', '\u2003', '\t', '\n', '  ']) + s[j + 1:])
+                vals.append(s[:k] + rnd.choice(['\u00a0', '\x0b', '\x0c', '\u3000']) + s[k:])
+                vals.append('0' + s)
+                vals.append(s[:1] + '0' + s[1:])
+                vals.append(s[:1] + '00' + s[1:])
+                vals.append(s[:k] + s[k] + s[k:])
+                vals.append(s[:k] + s[k + 1:])
+                vals.append(s.upper() if s != s.upper() else s.lower())
                 vals.append(' ' + s + '  ')
                 vals.append(s + s)
     vals += rnd.sample(NUMS, min(len(NUMS), 6 + n_extra))
